@@ -71,6 +71,13 @@ type ledger struct {
 	mode    string
 	curHeight uint32 // height of the block being described
 	byNodeID  map[string]*ecdsa.PrivateKey
+	// the PARENT view of the block being judged, captured BEFORE the block is inserted: in a term with a single deputy the
+	// miner's own signature makes the block stable at once and the parent's account view is gone afterwards
+	pvHash   common.Hash
+	pvViews  map[common.Address]acctView
+	pvNodeID map[common.Address]string
+	pvBal    map[common.Address]*big.Int
+	pvCode   map[common.Address]bool
 	actorOf map[common.Address]string // account address -> name of its key (users, genesis deputies, income addresses)
 }
 
@@ -105,7 +112,49 @@ type acctView struct {
 	incomeSet  bool
 }
 
+// captureParent remembers the parent view of `b` (universe accounts in full, balance / has-code of every address the
+// block names) — to be called after the block was built and before it is inserted.
+func (l *ledger) captureParent(b *types.Block, miner common.Address) {
+	l.pvHash = common.Hash{}
+	views, ids := map[common.Address]acctView{}, map[common.Address]string{}
+	for _, a := range l.univ {
+		views[a] = l.view(b.ParentHash(), a)
+		ids[a] = l.nodeIDOf(b.ParentHash(), a)
+	}
+	bal, code := map[common.Address]*big.Int{}, map[common.Address]bool{}
+	named := map[common.Address]bool{}
+	for _, cl := range b.ChangeLogs {
+		named[cl.Address] = true
+	}
+	for _, tx := range b.Txs {
+		named[tx.From()] = true
+		named[tx.GasPayer()] = true
+		if tx.To() != nil {
+			named[*tx.To()] = true
+		}
+		if tx.Type() == params.CreateContractTx {
+			named[crypto.CreateContractAddress(tx.From(), tx.Hash())] = true
+		}
+	}
+	if mv := views[miner]; mv.incomeSet {
+		named[mv.income] = true
+	}
+	am := account.NewManager(b.ParentHash(), l.n.DB)
+	for a := range named {
+		acc := am.GetAccount(a)
+		bal[a] = new(big.Int).Set(acc.GetBalance())
+		cd, _ := acc.GetCode()
+		code[a] = len(cd) > 0
+	}
+	l.pvHash, l.pvViews, l.pvNodeID, l.pvBal, l.pvCode = b.ParentHash(), views, ids, bal, code
+}
+
 func (l *ledger) view(h common.Hash, a common.Address) acctView {
+	if h == l.pvHash && l.pvHash != (common.Hash{}) {
+		if v, ok := l.pvViews[a]; ok {
+			return v
+		}
+	}
 	am := account.NewManager(h, l.n.DB)
 	acc := am.GetAccount(a)
 	p := acc.GetCandidate()
@@ -1233,6 +1282,7 @@ func ledgerEpoch(c *Ctx, mode string, nBlocks int, epoch int) {
 					break
 				}
 			}
+			l.captureParent(b, miner)
 			if e := n.Insert(CloneBlock(b)); e != nil {
 				if os.Getenv("HX_DEBUG") != "" {
 					log.Setup(log.LevelDebug, false, true)
